@@ -110,8 +110,17 @@ pub fn main(args: &[String]) -> i32 {
                 });
             }
             if flag(args, "--wire") {
+                let from: u64 = arg(args, "--from-ms").and_then(|s| s.parse().ok()).unwrap_or(0);
+                let to: u64 = arg(args, "--to-ms").and_then(|s| s.parse().ok()).unwrap_or(u64::MAX);
+                let cls: u32 = arg(args, "--class").and_then(|s| s.parse().ok()).unwrap_or(crate::wire::C_ALL);
                 crate::net::with_net(|n| {
                     for w in &n.wire {
+                        if w.t_send / 1_000_000 < from || w.t_send / 1_000_000 > to || w.class & cls == 0 { continue; }
+                        if !flag(args, "--wire-full") {
+                            let subs: Vec<String> = w.parsed.subs.iter().filter(|s| !matches!(s, crate::wire::Sub::InfoDst(_) | crate::wire::Sub::InfoTs)).map(|s| format!("{:?}", s).replace("reader: ", "r:").replace("writer: ", "w:")).collect();
+                            println!("#{} {:.4}->{} {}>{} {}", w.ordinal, w.t_send as f64 / 1e9, w.t_arr.map(|t| format!("{:.4}", t as f64 / 1e9)).unwrap_or("LOST".into()), w.src.map(|s| s.to_string()).unwrap_or("X".into()), w.dst, subs.join(" "));
+                            continue;
+                        }
                         println!("wire #{} t={:.6} arr={:?} {:?}->{} {:?} {} {:?}", w.ordinal, w.t_send as f64 / 1e9, w.t_arr.map(|t| t as f64 / 1e9), w.src, w.dst, w.port, crate::wire::class_names(w.class), w.parsed.subs);
                     }
                 });
